@@ -365,3 +365,67 @@ func H_C17_Reopen(shape int) {
 		}
 	}
 }
+
+// ---- many plugin callbacks on one pipeline (more than a dozen entries in all):
+// eight plain registrations plus one Before("*") / After("*") registration at a
+// symbolic position. Every callback fires once, the built-ins keep their order,
+// the '*' one is first / last
+// among the built-ins.
+
+func N_C17_Many(tier int) int { return len(c17Pipelines) }
+
+func H_C17_Many(shape int) {
+	db := openDry(stubDialector{})
+	var log []string
+	mk := func(name string) func(*gorm.DB) {
+		return func(*gorm.DB) { log = append(log, name) }
+	}
+	p, err := gorm.VerifCloneProcessor(c17Processor(db, shape), mk)
+	verifrt.Assert(err == nil, "C17.defaults-compile")
+	gorm.VerifRunFns(p, db)
+	base := append([]string{}, log...)
+	star := verifrt.Concretize(verifrt.Intn("star_at", 0, 8), 0, 8)
+	before := verifrt.Bool("star_before")
+	// every (pipeline, position, side) is a violation signature of its own: the
+	// real sort.Slice misbehaves only for some lengths and patterns
+	verifrt.Tag(c17Pipelines[shape] + ".star" + string([]byte{byte('0' + star)}))
+	if before {
+		verifrt.Tag("before")
+	}
+	plugins := []string{"p0", "p1", "p2", "p3", "p4", "p5", "p6", "p7", "p8"}
+	for i, n := range plugins {
+		var e error
+		switch {
+		case i == star && before:
+			e = p.Before("*").Register(n, mk(n))
+		case i == star:
+			e = p.After("*").Register(n, mk(n))
+		default:
+			e = p.Register(n, mk(n))
+		}
+		verifrt.Assert(e == nil, "C17.register-error")
+	}
+	log = nil
+	gorm.VerifRunFns(p, db)
+	verifrt.Observe("log", log)
+	verifrt.Assert(len(log) == len(base)+len(plugins), "C17.extra")
+	for _, n := range append(append([]string{}, base...), plugins...) {
+		verifrt.Assert(countOf(log, n) == 1, "C17.once")
+	}
+	// built-ins in their original relative order
+	last := -1
+	for _, n := range base {
+		i := indexOf(log, n)
+		verifrt.Assert(i > last, "C17.builtin-order")
+		last = i
+	}
+	// the '*' callback on the requested side of every built-in
+	me := indexOf(log, plugins[star])
+	for _, n := range base {
+		if before {
+			verifrt.Assert(me < indexOf(log, n), "C17.before-star")
+		} else {
+			verifrt.Assert(me > indexOf(log, n), "C17.after-star")
+		}
+	}
+}
